@@ -1,6 +1,15 @@
-"""C14 - see DESIGN.md section 5/C14.  Bounded stand-in (bounded/C14.py) of the property's
-contract on the real code; labelled bounded, never counted as proved."""
+"""C14 - protocols: each step's parameter values hold exactly over its interval.
+
+Deductive part (contracts/simulator.py): Simulator.simulate_protocol is proved, using only
+the proved contract of Simulator.simulate, to advance the absolute time reached by exactly
+the cumulative end of the last protocol step - also when the protocol continues an earlier
+simulation (loop invariant: after step i the time reached is start + cumulative end of
+step i) - or to record a failure.  Bounded part (bounded/C14.py): protocols x time grids x
+prior histories on the real Simulator against closed forms and a step-by-step simulator
+(parameter values per step, time-course form, fluxes)."""
 from props._runner import run
 
 if __name__ == "__main__":
-    run("C14", "exploration", notes="C14: run-time contract on the real code over an enumerated small scope (bounded stand-in)")
+    run("C14", "proof", files=["simulator.py"], targets=["mxlpy.simulator:Simulator.simulate_protocol"],
+        notes="C14: time bookkeeping of simulate_protocol proved on top of simulate's contract; that the parameters of step i are "
+              "applied (update_parameters), the time-course form and make_protocol are covered by the bounded stand-in only")
